@@ -58,8 +58,17 @@ def mirror(tr, exp):
     return None
 
 
-def run_agm(pid, tier, seed, fams, mutants, rule, assumptions, sample=None, replicas=1, write=True):
+def run_agm(pid, tier, seed, fams, mutants, rule, assumptions, sample=None, replicas=1, write=True, level_lemma=False):
     t0 = time.time()
+    lemma = None
+    if level_lemma:
+        # unbounded-depth lemma behind "highest id = innermost, whatever failed before": TLAPS proof of spec/proof/LevelStack.tla
+        ob, proved = vlib.run_tlapm("proof/LevelStack.tla")
+        if ob != proved:
+            raise vlib.MachineryError("TLAPS: only %d of %d obligations of LevelStack proved" % (proved, ob))
+        lemma = {"module": "spec/proof/LevelStack.tla", "theorem": "Spec => []Increasing (trace ids of the open traces strictly increase, for unbounded depth "
+                 "and any number of exceptional exits that leave top unrestored)", "obligations": ob, "discharged": proved,
+                 "checker_cmd": "tlapm --toolbox 0 0 LevelStack.tla"}
     verdict = vlib.Verdict(pid)
     states = trans = 0
     notes = []
@@ -150,6 +159,8 @@ def run_agm(pid, tier, seed, fams, mutants, rule, assumptions, sample=None, repl
         "samples": [{"prog": exp_by_id[i]["prog"], "meaning": exp_by_id[i]["den"], "observed": by_id[i]["obs"], "trace_ids": by_id[i]["ids"]} for i in s_ids],
         "known_findings_reobserved": verdict.known_hits,
     }
+    if lemma:
+        coverage["level_lemma_tlaps"] = lemma
     if not write:
         return verdict, coverage
     rc = verdict.finish()
@@ -179,7 +190,7 @@ def c08(tier, seed, replay=None):
                    "nest family: every nesting of depth 2 (and 3) x every mode assignment x every closure pattern (which enclosing variables the "
                    "level's body mentions, own variable to the power 0..2, inner point own / own+enclosing, inner result added or multiplied in); "
                    "fault family: nested differentiation after a caught inner failure; distinct_nontrivial = distinct programs with a defined meaning",
-                   ASSUME)
+                   ASSUME, level_lemma=True)
 
 
 def c07(tier, seed, replay=None):
@@ -234,7 +245,7 @@ def c19(tier, seed, replay=None):
                    "differentiated function, two levels above, at top level, twice in a row) x 2^3 modes x 2 points, followed by nested canary "
                    "differentiations in the same process; all programs of one worker process run in sequence, so every program also runs after the "
                    "failures of its predecessors",
-                   ASSUME)
+                   ASSUME, level_lemma=True)
 
 
 def c17(tier, seed, replay=None):
